@@ -17,13 +17,17 @@ def write_evidence(prop, mod, tier, seed, results, order, wall, batch_wall, viol
     digests = set()
     sim_time = 0.0
     steps = 0
+    units = 0
     samples = []
     for i in order:
         r = results[i]
         _merge(probes, r["probes"])
         _merge(faults, r["faults"])
         digests.add(r["digest"])
-        if r["nontrivial"]:
+        units += r.get("units", 1)
+        if r.get("keys") is not None:
+            keys.update(r["keys"])
+        elif r["nontrivial"]:
             keys.add(r["key"])
         sim_time += r["sim_time"]
         steps += r["steps"]
@@ -35,12 +39,13 @@ def write_evidence(prop, mod, tier, seed, results, order, wall, batch_wall, viol
         probes.setdefault(p, 0)
     holes = sorted(p for p in declared if probes.get(p, 0) == 0)
     cov = {
-        "evaluations": n,
+        "evaluations": units,
+        "simulated_runs": n,
         "distinct_nontrivial": len(keys),
         "rule": mod.RULE,
         "samples": samples,
         "exhaustive": False,
-        "runs_per_hour": int(n / batch_wall * 3600) if batch_wall > 0 else 0,
+        "runs_per_hour": int(units / batch_wall * 3600) if batch_wall > 0 else 0,
         "seeds": {"batch_seed": seed, "run_indices": [order[0], order[-1]] if order else []},
         "sim_time_s": round(sim_time, 3),
         "sim_steps": steps,
